@@ -449,6 +449,7 @@ def run(ctx):
     repo_models(ctx, home)
     fixed_width_record_scenarios(ctx, home)
     union_case_scenarios(ctx, home)
+    parameter_name_scenarios(ctx, home)
     imported_record_scenario(ctx, home)
     numeric_conversion_scenario(ctx, home)
     cxx.prune_cache()
@@ -566,6 +567,25 @@ def union_case_scenarios(ctx, home):
         old = mk(*o, [], "v0")
         new = mk(*n, [("v0", old)], "v1")
         _evolve_pair(ctx, home, "union-cases", "types added to / removed from unions", name, old, new, value_sets=8)
+
+
+def parameter_name_scenarios(ctx, home):
+    """protocol steps and record fields whose names are the names the generated C++ gives to its own parameters and locals (value, stream, item, ...), with
+    a type that changed since v0 (converted, made optional, removed): the conversion code must not confuse the model's names with its own"""
+    i32, i64, f32t, f64t, st = P("int32"), P("int64"), P("float32"), P("float64"), P("string")
+    for names, fnames in ((("value", "stream", "values"), None), (("value", "stream", "values"), ("x", "y", "z")), (("item", "index", "count"), None), (("result", "reader", "version"), None)):
+        a, b, c = names
+        fa, fb, fc = fnames or names
+
+        def mk(t1, t2, t3, rec_fields, versions, d):
+            return Pkg("Evo", [Rec("Holder", rec_fields), Proto("Evo", [(a, t1), (b, S(t2)), (c, t3), ("holder", N("Holder")), ("holders", V(N("Holder"))), ("end", i32)])], [], versions, d)
+        cases = {"widened": ((i32, f32t, i32, [(fa, i32), (fb, f32t), (fc, i32)]), (i64, f64t, i64, [(fa, i64), (fb, f64t), (fc, i64)])),
+                 "made-optional": ((i32, f32t, st, [(fa, i32), (fb, f32t), (fc, st)]), (Opt(i32), f64t, Opt(st), [(fa, Opt(i32)), (fb, Opt(f32t)), (fc, Opt(st))])),
+                 "field-removed": ((i32, f32t, i32, [(fa, i32), (fb, f32t), (fc, i32)]), (i32, f32t, i32, [(fa, i32), (fc, i32)])),
+                 "field-added": ((i32, f32t, i32, [(fa, i32)]), (i32, f32t, i32, [(fa, i32), (fb, f32t), (fc, i32)]))}
+        for cname, (o, n) in cases.items():
+            old = mk(*o, [], "v0")
+            _evolve_pair(ctx, home, "parameter-names", "steps / fields named like the generated code's own parameters", "%s%s-%s" % (a, "-steps-only" if fnames else "", cname), old, mk(*n, [("v0", old)], "v1"))
 
 
 def _evolve_pair(ctx, home, tag, what, name, old, new, write_labels=("v0",), value_sets=3):
